@@ -54,6 +54,14 @@ BREAKING = [
                                      "            if progress is not None:\n"
                                      "                dfs_features = sorted(dfs_features, key=len)\n\n    elif axis is None:")],
      'result order depends on the progress option'),
+    ('m11_futures_as_completed', 'C11', [(G, "            dfs_features = list(progress_bar(mapping, progress, len(sigs)))\n\n    elif axis is None:",
+                                       "            from concurrent.futures import ProcessPoolExecutor, as_completed\n"
+                                       "            _kw = kwargs if len(kwargs) > 1 else kwargs * len(sigs)\n"
+                                       "            with ProcessPoolExecutor(max_workers=n_jobs) as _ex:\n"
+                                       "                _futs = [_ex.submit(compute_features, s, fs=fs, f_range=f_range,\n"
+                                       "                                    return_samples=return_samples, **k) for s, k in zip(sigs, _kw)]\n"
+                                       "                dfs_features = [f.result() for f in as_completed(_futs)]\n\n    elif axis is None:")],
+     'concurrent.futures with as_completed: completion order'),
     ('m11_njobs_chunk', 'C11', [(G, "                                    zip(sigs, kwargs))\n\n            else:",
                                  "                                    zip(sigs[:n_jobs * 2], kwargs))\n\n            else:")],
      'rows beyond 2*n_jobs dropped (result depends on n_jobs)'),
@@ -141,6 +149,13 @@ BREAKING = [
                                "        else:\n"
                                "            _fk['n_cycles'] = _old\n")],
      'temporary in-place edit of the caller\'s filter_kwargs, restored at the end (needs interleaving or an interrupt)'),
+    ('m15_temp_edit_nocall', 'C15', [(SH, "    df_samples = compute_cyclepoints(sig, fs, f_range, **find_extrema_kwargs)\n",
+                                      "    find_extrema_kwargs['_visited'] = True\n"
+                                      "    _n_opts = len(find_extrema_kwargs)\n"
+                                      "    del find_extrema_kwargs['_visited']\n"
+                                      "    df_samples = compute_cyclepoints(sig, fs, f_range, **find_extrema_kwargs)\n")],
+     'temporary key in the caller\'s find_extrema_kwargs with no call between write and removal '
+     '(only line-granularity pre-emption or interruption can see it)'),
     ('m15_module_cache', 'C15', [(F, "    # Compute shape features for each cycle\n    df_shape_features = compute_shape_features(sig, fs, f_range, center_extrema=center_extrema,\n                                               find_extrema_kwargs=find_extrema_kwargs)\n",
                                   "    # Compute shape features for each cycle\n"
                                   "    _key = (len(sig), float(sig[0]), fs, tuple(f_range), center_extrema)\n"
@@ -188,6 +203,14 @@ PRESERVING = [
     ('p_models_copy_tables', [(O, "                bm.load(self.df_features[dim0], sig, self.fs, self.f_range)",
                                "                bm.load(self.df_features[dim0].copy(), sig.copy(), self.fs, self.f_range)")],
      'models hold copies of the tables and signals'),
+    ('p_futures_in_order', [(G, "            dfs_features = list(progress_bar(mapping, progress, len(sigs)))\n\n    elif axis is None:",
+                                       "            from concurrent.futures import ProcessPoolExecutor, as_completed\n"
+                                       "            _kw = kwargs if len(kwargs) > 1 else kwargs * len(sigs)\n"
+                                       "            with ProcessPoolExecutor(max_workers=n_jobs) as _ex:\n"
+                                       "                _futs = [_ex.submit(compute_features, s, fs=fs, f_range=f_range,\n"
+                                       "                                    return_samples=return_samples, **k) for s, k in zip(sigs, _kw)]\n"
+                                       "                dfs_features = [f.result() for f in _futs]\n\n    elif axis is None:")],
+     'concurrent.futures, results taken in submission order'),
     ('p_private_keys', [(O, "        self.df_features = compute_features(\n            self.sig,",
                          "        self.__dict__['_n_fits'] = self.__dict__.get('_n_fits', 0) + 1\n        self.df_features = compute_features(\n            self.sig,")],
      'object keeps a private fit counter'),
